@@ -377,4 +377,179 @@ theorem probeName_fresh (keys : List String) (name : String) :
 example : (identifierizeStr [] "foo_bar") = "FooBar" := by decide +kernel
 example : validExported (identifierize [] ("9lives".toList.map asciiRune)) = true := by decide +kernel
 
+/-! ### distinct field names -/
+
+/-- a base name without underscore: what `Identifierize` returns (separators are removed) -/
+def NoUnderscore (s : String) : Prop := '_' ∉ s.toList
+
+theorem sfx_toList (b : String) (k : Nat) :
+    (b ++ "_" ++ toString k).toList = b.toList ++ '_' :: Nat.toDigits 10 k := by
+  simp [String.toList_append]
+
+theorem split_unique : ∀ (xs ys ds es : List Char), '_' ∉ xs → '_' ∉ ys →
+    xs ++ '_' :: ds = ys ++ '_' :: es → xs = ys ∧ ds = es := by
+  intro xs
+  induction xs with
+  | nil =>
+    intro ys ds es _ hy h
+    cases ys with
+    | nil => simpa using h
+    | cons y ys => simp at h; exact absurd (h.1 ▸ List.mem_cons_self) hy
+  | cons x xs ih =>
+    intro ys ds es hx hy h
+    cases ys with
+    | nil => simp at h; exact absurd (h.1 ▸ List.mem_cons_self) hx
+    | cons y ys =>
+      simp only [List.cons_append, List.cons.injEq] at h
+      obtain ⟨r1, r2⟩ := ih ys ds es (fun m => hx (List.mem_cons_of_mem _ m)) (fun m => hy (List.mem_cons_of_mem _ m)) h.2
+      exact ⟨by rw [h.1, r1], r2⟩
+
+theorem toDigits_inj {j k : Nat} (h : Nat.toDigits 10 j = Nat.toDigits 10 k) : j = k := by
+  have := congrArg (fun l => Nat.ofDigitChars 10 l 0) h
+  simpa using this
+
+/-- a suffixed name is not an underscore-free name -/
+theorem sfx_ne_base (b b' : String) (k : Nat) (h' : NoUnderscore b') : b ++ "_" ++ toString k ≠ b' := by
+  intro h
+  have := congrArg String.toList h
+  rw [sfx_toList] at this
+  apply h'
+  rw [← this]
+  simp
+
+/-- suffixed names are equal only if base and number are -/
+theorem sfx_inj (b b' : String) (j k : Nat) (hb : NoUnderscore b) (hb' : NoUnderscore b')
+    (h : b ++ "_" ++ toString j = b' ++ "_" ++ toString k) : b = b' ∧ j = k := by
+  have := congrArg String.toList h
+  rw [sfx_toList, sfx_toList] at this
+  obtain ⟨r1, r2⟩ := split_unique _ _ _ _ hb hb' this
+  exact ⟨String.toList_inj.mp r1, toDigits_inj r2⟩
+
+/-- names the bookkeeping has handed out so far -/
+def UsedBy (u : List (String × Nat)) (n : String) : Prop :=
+  ∃ b c, (b, c) ∈ u ∧ (n = b ∨ ∃ k, 2 ≤ k ∧ k ≤ c ∧ n = b ++ "_" ++ toString k)
+
+def WF (u : List (String × Nat)) : Prop :=
+  (akeys u).Nodup ∧ ∀ b c, (b, c) ∈ u → 1 ≤ c ∧ NoUnderscore b
+
+theorem alookup_mem {α : Type} {k : String} {v : α} : ∀ {kvs : List (String × α)}, alookup k kvs = some v → (k, v) ∈ kvs := by
+  intro kvs
+  induction kvs with
+  | nil => simp [alookup]
+  | cons p rest ih =>
+    obtain ⟨k', v'⟩ := p
+    simp only [alookup]
+    split
+    · rename_i hk; intro h; cases h; simp [hk]
+    · intro h; exact List.mem_cons_of_mem _ (ih h)
+
+theorem unique_value {u : List (String × Nat)} (hn : (akeys u).Nodup) {b : String} {c c' : Nat}
+    (h1 : (b, c) ∈ u) (h2 : (b, c') ∈ u) : c = c' := by
+  induction u with
+  | nil => cases h1
+  | cons p rest ih =>
+    obtain ⟨k, v⟩ := p
+    simp only [akeys, List.map_cons, List.nodup_cons] at hn
+    have hk : ∀ x, (b, x) ∈ rest → b ∈ rest.map (·.1) := fun x hx => List.mem_map.mpr ⟨(b, x), hx, rfl⟩
+    rcases List.mem_cons.mp h1 with e1 | m1 <;> rcases List.mem_cons.mp h2 with e2 | m2
+    · cases e1; cases e2; rfl
+    · cases e1; exact absurd (hk _ m2) hn.1
+    · cases e2; exact absurd (hk _ m1) hn.1
+    · exact ih hn.2 m1 m2
+
+theorem assign_fresh : ∀ (bs : List String) (u : List (String × Nat)), WF u → (∀ b ∈ bs, NoUnderscore b) →
+    (assignFieldNames u bs).Nodup ∧ ∀ n ∈ assignFieldNames u bs, ¬ UsedBy u n := by
+  intro bs
+  induction bs with
+  | nil => intro u _ _; simp [assignFieldNames]
+  | cons b bs ih =>
+    intro u hwf hbs
+    have hb : NoUnderscore b := hbs b (by simp)
+    have hbs' : ∀ x ∈ bs, NoUnderscore x := fun x hx => hbs x (by simp [hx])
+    simp only [assignFieldNames]
+    cases hl : alookup b u with
+    | none =>
+      have hnk : b ∉ akeys u := (alookup_none_iff_not_mem b u).mp hl
+      simp only [nextFieldName, hl]
+      -- the new state
+      have hwf' : WF (u ++ [(b, 1)]) := by
+        refine ⟨?_, ?_⟩
+        · simp only [akeys, List.map_append, List.map_cons, List.map_nil]
+          exact List.nodup_append.mpr ⟨hwf.1, by simp, by
+            intro a ha b' hb'; simp at hb'; subst hb'; intro e; subst e; exact hnk ha⟩
+        · intro b' c' hm
+          rcases List.mem_append.mp hm with hm | hm
+          · exact hwf.2 b' c' hm
+          · simp at hm; obtain ⟨rfl, rfl⟩ := hm; exact ⟨Nat.le_refl 1, hb⟩
+      have hused : ∀ n, UsedBy u n ∨ n = b → UsedBy (u ++ [(b, 1)]) n := by
+        intro n h
+        rcases h with ⟨b', c', hm, hn⟩ | rfl
+        · exact ⟨b', c', List.mem_append_left _ hm, hn⟩
+        · exact ⟨n, 1, by simp, Or.inl rfl⟩
+      obtain ⟨ihn, ihf⟩ := ih (u ++ [(b, 1)]) hwf' hbs'
+      refine ⟨List.nodup_cons.mpr ⟨?_, ihn⟩, ?_⟩
+      · intro hmem; exact ihf b hmem (hused b (Or.inr rfl))
+      · intro n hn
+        rcases List.mem_cons.mp hn with rfl | hn
+        · rintro ⟨b', c', hm, h | ⟨k, _, _, h⟩⟩
+          · subst h; exact hnk (List.mem_map.mpr ⟨(n, c'), hm, rfl⟩)
+          · exact sfx_ne_base b' n k hb h.symm
+        · intro hu; exact ihf n hn (hused n (Or.inl hu))
+    | some c =>
+      have hmem : (b, c) ∈ u := alookup_mem hl
+      simp only [nextFieldName, hl]
+      let u' := u.map (fun (p : String × Nat) => if p.1 = b then (p.1, c + 1) else p)
+      have hkeys : akeys u' = akeys u := by
+        simp only [akeys, u', List.map_map]
+        apply List.map_congr_left
+        intro p _; simp only [Function.comp]; split <;> rfl
+      have hwf' : WF u' := by
+        refine ⟨hkeys ▸ hwf.1, ?_⟩
+        intro b' c' hm
+        obtain ⟨p, hp, he⟩ := List.mem_map.mp hm
+        split at he
+        · rename_i hpb
+          cases he
+          exact ⟨by omega, (hwf.2 p.1 p.2 hp).2⟩
+        · subst he; exact hwf.2 _ _ hp
+      have hused : ∀ n, UsedBy u n ∨ n = b ++ "_" ++ toString (c + 1) → UsedBy u' n := by
+        intro n h
+        rcases h with ⟨b', c', hm, hn⟩ | rfl
+        · by_cases hbb : b' = b
+          · subst hbb
+            have hc : c' = c := unique_value hwf.1 hm hmem
+            subst hc
+            refine ⟨b', c' + 1, List.mem_map.mpr ⟨(b', c'), hm, by simp⟩, ?_⟩
+            rcases hn with h | ⟨k, h1, h2, h3⟩
+            · exact Or.inl h
+            · exact Or.inr ⟨k, h1, by omega, h3⟩
+          · exact ⟨b', c', List.mem_map.mpr ⟨(b', c'), hm, by simp [hbb]⟩, hn⟩
+        · have hc1 := (hwf.2 b c hmem).1
+          exact ⟨b, c + 1, List.mem_map.mpr ⟨(b, c), hmem, by simp⟩, Or.inr ⟨c + 1, by omega, Nat.le_refl _, rfl⟩⟩
+      obtain ⟨ihn, ihf⟩ := ih u' hwf' hbs'
+      refine ⟨List.nodup_cons.mpr ⟨?_, ihn⟩, ?_⟩
+      · intro hm; exact ihf _ hm (hused _ (Or.inr rfl))
+      · intro n hn
+        rcases List.mem_cons.mp hn with rfl | hn
+        · rintro ⟨b', c', hm, h | ⟨k, _, hk2, h⟩⟩
+          · exact sfx_ne_base b b' (c + 1) (hwf.2 b' c' hm).2 h
+          · obtain ⟨e1, e2⟩ := sfx_inj b b' (c + 1) k hb (hwf.2 b' c' hm).2 h
+            subst e1
+            have : c' = c := unique_value hwf.1 hm hmem
+            omega
+        · intro hu; exact ihf n hn (hused n (Or.inl hu))
+
+/-- **C14, distinct field names**: whatever the property names, however many of them collide after
+    normalisation, the Go field names of one struct are pairwise distinct (base names are `Identifierize`
+    results, which contain no underscore: separators are removed) -/
+theorem field_names_distinct (bases : List String) (h : ∀ b ∈ bases, NoUnderscore b) :
+    (assignFieldNames [] bases).Nodup :=
+  (assign_fresh bases [] ⟨by simp [akeys], by simp⟩ h).1
+
+example : assignFieldNames [] ["FooBar", "FooBar", "X", "FooBar"] = ["FooBar", "FooBar_2", "X", "FooBar_3"] := by decide +kernel
+
+/-- known limit: a user-supplied identifier (`goJSONSchema.identifier`) WITH an underscore can collide -/
+theorem KF_user_identifier_collides : ¬ (assignFieldNames [] ["A", "A", "A_2"]).Nodup := by decide +kernel
+
+
 end GJS.Props.C14
